@@ -13,7 +13,8 @@
 (***************************************************************************)
 EXTENDS Integers, Sequences
 
-HsIsWs(c) == c \in {9, 10, 11, 12, 13, 32}
+(* white space = the Unicode White_Space property (what "surrounding white space" means for text typed or pasted by a user) *)
+HsIsWs(c) == c \in {9, 10, 11, 12, 13, 32, 133, 160, 5760, 8232, 8233, 8239, 8287, 12288} \/ (c >= 8192 /\ c <= 8202)
 RECURSIVE HsTrimLeft(_)
 HsTrimLeft(s) == IF s # <<>> /\ HsIsWs(Head(s)) THEN HsTrimLeft(Tail(s)) ELSE s
 RECURSIVE HsTrimRight(_)
